@@ -65,6 +65,29 @@ func genExpr(t *rapid.T, equs []string, consts bool, depth int) []rc.Tok {
 			o = rc.Toks(rc.ID(rapid.SampledFrom(equs).Draw(t, "equ")))
 		case k == 4 && consts:
 			o = rc.Toks(rc.ID(rapid.SampledFrom([]string{"CORESIZE", "MAXLENGTH", "MAXPROCESSES", "MINDISTANCE"}).Draw(t, "const")))
+		case k == 6 && rapid.Bool().Draw(t, "tower"):
+			// a small value that passes through an intermediate beyond 64 bits: x*x*x*x/(x*x*x) and the like
+			x := rc.N(int64(rapid.SampledFrom([]int{3000001, 2147483647, 1000003, 65537}).Draw(t, "towerx")))
+			up := rapid.IntRange(4, 6).Draw(t, "towerup")
+			o = rc.Toks(rc.LP(), x)
+			for i := 1; i < up; i++ {
+				o = append(o, rc.OP("*"), x)
+			}
+			switch rapid.IntRange(0, 2).Draw(t, "towerdown") {
+			case 0: // divided by a parenthesised power
+				o = append(o, rc.OP("/"), rc.LP(), x)
+				for i := 2; i < up; i++ {
+					o = append(o, rc.OP("*"), x)
+				}
+				o = append(o, rc.RP())
+			case 1: // divided step by step
+				for i := 1; i < up; i++ {
+					o = append(o, rc.OP("/"), x)
+				}
+			default: // remainder by a neighbour of a power
+				o = append(o, rc.OP("%"), rc.LP(), x, rc.OP("*"), x, rc.OP("-"), rc.N(1), rc.RP())
+			}
+			o = append(o, rc.RP())
 		case k == 5:
 			o = rc.Toks(rc.N(int64(rapid.SampledFrom([]int{0, 1, 2147483647, 2147483648, 65536, 46341, 1000000, 8, 9, 10, 100}).Draw(t, "big"))))
 		default:
@@ -344,7 +367,17 @@ func buildExprProgram(c exprCase, v *int64) []rc.Item {
 		if v != nil {
 			k = ((*v % 7) + 7) % 7
 		}
-		items = append(items, rc.Item{Kind: rc.KFor, Expr: adj(k), Body: []rc.Item{dat(1)}})
+		if c.N%2 == 1 {
+			// the count is one EQU name, used by three blocks one after another: each must see the same
+			// value (0..2: the configuration leaves room for eight instructions)
+			k %= 3
+			items = append(items, rc.Item{Kind: rc.KEqu, Labels: []string{"fcount"}, Expr: adj(k)})
+			for b := int64(0); b < 3; b++ {
+				items = append(items, rc.Item{Kind: rc.KFor, Expr: rc.Toks(rc.ID("fcount")), Body: []rc.Item{dat(10 + b)}})
+			}
+		} else {
+			items = append(items, rc.Item{Kind: rc.KFor, Expr: adj(k), Body: []rc.Item{dat(1)}})
+		}
 		items = append(items, dat(2))
 	case "assert":
 		e := c.E1
